@@ -19,7 +19,7 @@ ANCHORS = ["decaylanguage.dec.dec:DecFileParser.build_decay_chains", "decaylangu
            "decaylanguage.dec.dec:DecFileParser._decay_mode_details"]
 WORKERS = {"quick": 4, "thorough": 16}
 WTESTS = {"groups": ['parser_chains'], "tests": ['tests/dec', 'tests/decay']}
-REQUIRED = {"mother-made-by-CDecay-or-CopyDecay-used-as-daughter": 20, "depth>=3": 50, "repeated-daughter-in-line": 50, "empty-block-daughter": 20, "S-cuts-at-depth>=2": 50, "lines>=4": 50, "not-found-raises": 20,
+REQUIRED = {"cascade-deeper-than-100-levels": 1, "mother-made-by-CDecay-or-CopyDecay-used-as-daughter": 20, "depth>=3": 50, "repeated-daughter-in-line": 50, "empty-block-daughter": 20, "S-cuts-at-depth>=2": 50, "lines>=4": 50, "not-found-raises": 20,
             "S-contains-direct-daughters": 50, "S-as-set": 20, "S-as-tuple": 20, "S-all-subsets": 10, "daughters>=3": 50, "alias-mother": 10,
             "corpus-mother": 20, "photos-line-in-chain": 20, "conjugated-table-in-set": 10, "S-contains-the-mother": 20, "zero-branching-fraction-line-with-decaying-daughter": 5, "earlier-instance-queried-again": 20, "reparsed-without-conjugates": 5, "C09.build_decay_chains.is_unfolding": 300}
 ASSUMPTIONS = ["table sets are acyclic (as quantified)", "the chain reports the model without the PHOTOS keyword; an absent parameter list '' == []"]
@@ -114,6 +114,9 @@ def gen_tables(ctx, max_paths=3000, max_size=1500, same_names_as=None):
                 if L.label_ok(cp, g.models) and cp not in parts and cp not in stable:
                     cds.append({"k": "CopyDecay", "a": cp, "b": m})
                     made.append(cp)
+                    if r.random() < 0.5:      # a second copy of the same source
+                        cds.append({"k": "CopyDecay", "a": cp + "2", "b": m})
+                        made.append(cp + "2")
             for name in made:
                 for up in parts[:j]:
                     for ln in by_m[up]["lines"]:
@@ -307,8 +310,43 @@ def run_corpus(ctx):
                 check(ctx, p, T, m, S, ["list", "tuple", "set"][i % 3], wit, "corpus")
 
 
+def deep_cascade(ctx, depth):
+    """One long acyclic cascade N000 -> N001 gamma, N001 -> N002 gamma, ...: every level is unfolded, however many there are."""
+    names_ = [f"N{i:03d}" for i in range(depth)]
+    stmts = [{"k": "Decay", "m": n, "lines": [{"bf": "1.0", "fs": [names_[i + 1], "gamma"] if i + 1 < depth else ["gamma", "gamma"], "photos": False, "model": "PHSP", "params": []}]}
+             for i, n in enumerate(names_)]
+    ctx.rng.shuffle(stmts)
+    text = L.render(stmts)
+    wit = {"kind": "generated", "text": text}
+    ctx.case({"deep": depth}, True, "deep-cascade")
+    ctx.hit("cascade-deeper-than-100-levels")
+    ok, res = ctx.guard("parse", wit, snapshot.make_parser, text)
+    if not ok:
+        return
+    w = {**wit, "mother": names_[0], "stable": []}
+    ok, got = ctx.guard("chain", w, res[0].build_decay_chains, names_[0])
+    contracts.drain()
+    if not ok:
+        return
+    level, node = 0, got
+    while True:
+        (m, modes), = node.items()
+        if m != names_[level] or len(modes) != 1:
+            ctx.violate("chain:deep-cascade:level", f"level {level}: {m} with {len(modes)} modes, expected {names_[level]} with 1", w)
+            return
+        first = modes[0]["fs"][0] if level + 1 < depth else None
+        if level + 1 == depth:
+            break
+        if not isinstance(first, dict):
+            ctx.violate("chain:deep-cascade:not-unfolded", f"level {level + 1}: daughter {first!r} of {m} is a bare name although it has a table and is not stable", w)
+            return
+        level, node = level + 1, first
+    ctx.mon("C09.direct.deep_cascade")
+
+
 def run(ctx):
     contracts.arm("parser_chains")
+    deep_cascade(ctx, ctx.rng.choice([120, 150, 180]))
     for _ in range(ctx.pick(120, 800)):
         stmts, T, parts, exp = gen_tables(ctx)
         if exp.get("derived_table_used_as_daughter"):
